@@ -157,7 +157,9 @@ func findMediaByURL(
 			} else {
 				u1.Path += "/" + media.Control
 			}
-			if u1.String() == u.String() {
+			// compare decoded paths: u may carry a RawPath (e.g. '(' or non-canonical escapes)
+			// that a URL rebuilt from the decoded path does not reproduce
+			if u1.Path == u.Path && u1.RawQuery == u.RawQuery {
 				return media
 			}
 
@@ -168,7 +170,7 @@ func findMediaByURL(
 				Path:     path + "/" + media.Control,
 				RawQuery: query,
 			}
-			if u2.String() == u.String() {
+			if u2.Path == u.Path && u2.RawQuery == u.RawQuery {
 				return media
 			}
 		}
